@@ -1,16 +1,29 @@
 """C12 — taproot output keys commit to the script tree; every leaf spendable; tampering detected.
 
-E1 real-tree: all binary tree shapes with 1..5 leaves (thorough ..7) x internal keys of both parities x leaf
+E1 real-tree: all binary tree shapes with 1..5 leaves (thorough ..8) x internal keys of both parities x leaf
    versions on secp256k1: root, output key, private tweak, sibling-order invariance, control blocks of
    every leaf, query-order independence.
 E1 real-tamper: every byte of selected control blocks / leaf scripts x {^01, ^80, +1}.
 E3 toy-tree: every internal key of the toy group x shapes <= 4 leaves x every leaf, every byte of the control
    block x all 255 alternative values, differential against the reference (collisions are frequent at 5 bits,
    so the oracle is equality with the reference result, not "must differ").
+E1 real-scripts: a leaf-script alphabet (built from commands and/or parsed from raw bytes: empty, OP_0 in two
+   spellings, pushes of 2/75/76/255/256/520/521 bytes, non-minimal PUSHDATA1/2 spellings and a short-read
+   spelling whose parsed commands equal another leaf's, scripts of 252/253/254/65535/65536 bytes) as single
+   leaves, all ordered pairs and (collision sub-alphabet) all ordered triples.
+E1 real-paths: every shape with 6..8 leaves, TapBranch.combine, shared subtree objects: root, leaves(), path of
+   every leaf (no curve arithmetic).
+E1 real-versions: every even leaf version 0x00..0xFE (root, path, header byte round trip for both parity bits);
+   full output-key/control-block check for a version subset x both output-key parities x internal-key
+   constructors.
+E1 real-cb-parse: ControlBlock.parse boundary inputs: every length 0..200, path depths 0/1/127..130 (+-1 byte),
+   internal-key field 0, p-1, p, x+p, n, 2^256-1, not-on-curve: accepted iff the BIP341 reference accepts.
 """
 import itertools
 
-from mc.core import Engine, Res, attempt, Rejected, filler_int, current_toy
+from io import BytesIO
+
+from mc.core import Engine, Res, attempt, Rejected, filler, filler_int, current_toy
 from mc.ref import ec, txref
 
 PROP = "C12"
@@ -37,9 +50,106 @@ def sid(i):
     return _SCRIPT_OF.get(i, i)
 
 
+_LEAF = {}  # leaf index -> (alphabet name, "cmds" | "parse") (set per case by the script-alphabet engines)
+_ALPHA = {}
+
+
+def script_alphabet():
+    """name -> (commands or None, committed script bytes).  commands None: the spelling exists only as raw
+    bytes (non-minimal / short-read push) and is built with Script.parse.  The bytes of command-built
+    scripts come from the reference serialiser (direct push, PUSHDATA1 from 76, PUSHDATA2 from 256)."""
+    if _ALPHA:
+        return _ALPHA
+    k1, k2 = b"\x01" * 32, b"\x02" * 32
+
+    def cmds(name, items):
+        _ALPHA[name] = (items, txref.script_from_items(items))
+
+    def raw(name, b):
+        _ALPHA[name] = (None, b)
+
+    cmds("p2pk-a", [k1, 0xAC])
+    raw("p2pk-a/pushdata1", b"\x4c\x20" + k1 + b"\xac")  # same commands as p2pk-a, other bytes
+    raw("p2pk-a/pushdata2", b"\x4d\x20\x00" + k1 + b"\xac")
+    cmds("p2pk-b", [k2, 0xAC])
+    cmds("empty", [])
+    cmds("op_true", [0x51])
+    cmds("op0-as-bytes", [b""])  # same bytes (00) as op0-as-int, other commands
+    cmds("op0-as-int", [0])
+    cmds("push2", [b"\xaa\xbb"])
+    raw("push2/short-read", b"\x03\xaa\xbb")  # push of 3 with 2 bytes left: same commands as push2 after parsing
+    cmds("push75", [b"a" * 75, 0x75, 0x51])
+    cmds("push76", [b"a" * 76, 0x75, 0x51])
+    cmds("push255", [b"a" * 255, 0x75, 0x51])
+    cmds("push256", [b"a" * 256, 0x75, 0x51])
+    cmds("push520", [b"a" * 520, 0x75, 0x51])
+    raw("push521", b"\x4d\x09\x02" + b"z" * 521 + b"\x75\x51")
+    cmds("checksigadd", [k1, 0xAC, k2, 0xBA, 0x52, 0x87])
+    cmds("len252", [b"b" * 75] * 3 + [b"c" * 23])  # compact-size boundary 0xFC / 0xFD
+    cmds("len253", [b"b" * 75] * 3 + [b"c" * 24])
+    cmds("len254", [b"b" * 75] * 3 + [b"c" * 25])
+    cmds("len65535", [b"d" * 520] * 125 + [b"e" * 157, 0x51])  # compact-size boundary 0xFFFF / 0x10000
+    cmds("len65536", [b"d" * 520] * 125 + [b"e" * 157, 0x51, 0x51])
+    for nm, ln in (("len252", 252), ("len253", 253), ("len254", 254), ("len65535", 65535), ("len65536", 65536)):
+        assert len(_ALPHA[nm][1]) == ln, (nm, len(_ALPHA[nm][1]))
+    return _ALPHA
+
+
+# spellings a parser may legitimately refuse (promised push longer than the script / than 520 bytes)
+LENIENT = ("push2/short-read", "push521")
+# leaves that collide in commands (other bytes) or in bytes (other commands) with another member
+# (the three groups are unrelated to each other)
+COLLIDING = [("p2pk-a", "cmds"), ("p2pk-a/pushdata1", "parse"), ("p2pk-a/pushdata2", "parse"),
+             ("op0-as-bytes", "cmds"), ("op0-as-int", "cmds"), ("push2", "cmds"), ("push2/short-read", "parse")]
+
+
+def alphabet_items():
+    out = []
+    for name, (cm, _) in script_alphabet().items():
+        if cm is not None:
+            out.append((name, "cmds"))
+        out.append((name, "parse"))
+    return out
+
+
+def set_leaf_table(case):
+    _SCRIPT_OF.clear()
+    _LEAF.clear()
+    for i, sc in enumerate(case.get("scripts") or []):
+        _SCRIPT_OF[i] = sc
+    for i, it in enumerate(case.get("leaves") or []):
+        _LEAF[i] = (it[0], it[1])
+
+
 def leaf_script_bytes(i):
-    """P2PK-style tapscript with a fake 32-byte key: <32 bytes> OP_CHECKSIG"""
+    """P2PK-style tapscript with a fake 32-byte key: <32 bytes> OP_CHECKSIG (or the case's alphabet member)"""
+    if i in _LEAF:
+        return script_alphabet()[_LEAF[i][0]][1]
     return b"\x20" + bytes([sid(i) + 1]) * 32 + b"\xac"
+
+
+def parse_script(raw):
+    """bytes -> Script the way a verifier gets it from the witness"""
+    from buidl.script import Script
+
+    return Script.parse(BytesIO(txref.varbytes(raw)))
+
+
+def lib_script(i):
+    from buidl.script import Script
+
+    if i in _LEAF:
+        name, how = _LEAF[i]
+        cm, raw = script_alphabet()[name]
+        if how == "parse":
+            return parse_script(raw)
+        return Script(list(cm))
+    return Script([bytes([sid(i) + 1]) * 32, 0xAC])
+
+
+def twins(shape, leaf, vers):
+    """leaf positions committing to the same (version, bytes): the library may answer with the path of any of them"""
+    return [j for j in leaves_of(shape) if vers[j] == vers[leaf] and leaf_script_bytes(j) == leaf_script_bytes(leaf)]
 
 
 def ref_hash(node, vers):
@@ -99,7 +209,7 @@ def build_lib(node, vers):
 
     def rec(nd):
         if isinstance(nd, int):
-            lf = TapLeaf(Script([bytes([sid(nd) + 1]) * 32, 0xAC]), vers[nd])
+            lf = TapLeaf(lib_script(nd), vers[nd])
             leafobjs[nd] = lf
             return lf
         return TapBranch(rec(nd[0]), rec(nd[1]))
@@ -111,6 +221,21 @@ def pt(P):
     return None if isinstance(P, Rejected) or P is None or P.x is None else (P.x.num, P.y.num)
 
 
+def make_internal(c, P, d, via):
+    """the internal key as the caller may hold it: coordinates, SEC bytes, x-only bytes (even lift), or a private key's point"""
+    from buidl import pecc
+
+    if via == "sec":
+        return pecc.S256Point.parse_sec(bytes([2 + (P[1] & 1)]) + ec.b32(P[0]))
+    if via == "sec-uncompressed":
+        return pecc.S256Point.parse_sec(b"\x04" + ec.b32(P[0]) + ec.b32(P[1]))
+    if via == "xonly":
+        return pecc.S256Point.parse_xonly(ec.b32(P[0]))
+    if via == "priv":
+        return pecc.PrivateKey(d).point
+    return pecc.S256Point(P[0], P[1])
+
+
 def check_tree(res, case, c, toy, engine):
     """Shared by real and toy engines: one (shape, key, versions) triple."""
     from buidl import pecc
@@ -118,13 +243,22 @@ def check_tree(res, case, c, toy, engine):
     from buidl.script import Script
 
     shape, d, vers = case["shape"], int(case["d"]), case["vers"]
-    _SCRIPT_OF.clear()
-    for i, sc in enumerate(case.get("scripts") or []):
-        _SCRIPT_OF[i] = sc
+    set_leaf_table(case)
+    table = bool(case.get("leaves"))
     vc = {"engine": engine, "case": case}
     if toy:
         vc["toy"] = list(toy)
-    root_obj, leafobjs = build_lib(shape, vers)
+    if table:
+        built = attempt(build_lib, shape, vers)
+        if isinstance(built, Rejected):
+            if any(_LEAF[i][0] in LENIENT and _LEAF[i][1] == "parse" for i in _LEAF):
+                res.skip("Script.parse refuses a short-read / oversized push spelling: no such leaf can be built")
+            else:
+                res.violation(f"C12/{engine}/leaf-construction", vc, repr(built), "a TapLeaf/TapBranch", "a tree over valid tapscripts cannot be constructed")
+            return
+        root_obj, leafobjs = built
+    else:
+        root_obj, leafobjs = build_lib(shape, vers)
     exp_root = ref_hash(shape, vers)
     got_root = attempt(root_obj.hash)
     if got_root != exp_root:
@@ -139,7 +273,7 @@ def check_tree(res, case, c, toy, engine):
             return
         res.ok("root invariant under child swap")
     P = c.mulg(d)
-    internal = pecc.S256Point(P[0], P[1])
+    internal = make_internal(c, P, d, case.get("key_via", "xy"))
     exp = ref_output(c, P[0], exp_root, toy)
     if exp is None:
         res.ok("degenerate tweak (t >= n or Q = infinity): not asserted")
@@ -181,6 +315,16 @@ def check_tree(res, case, c, toy, engine):
         path = ref_path(shape, leaf, vers)
         exp_cb = bytes([vers[leaf] | par]) + ec.b32(P[0]) + b"".join(path)
         got_cb = sers[0][leaf]
+        if table:
+            # several positions may commit to the same (version, bytes): the block of any of them is a correct answer
+            tw = twins(shape, leaf, vers)
+            cands = [bytes([vers[leaf] | par]) + ec.b32(P[0]) + b"".join(ref_path(shape, j, vers)) for j in tw]
+            if got_cb not in cands:
+                others = [bytes([vers[leaf] | par]) + ec.b32(P[0]) + b"".join(ref_path(shape, j, vers)) for j in lv if j not in tw]
+                cls = "control-block-of-another-leaf" if got_cb in others else "control-block"
+                res.violation(f"C12/{engine}/{cls}", vc, got_cb, exp_cb, f"control block of leaf {leaf} ({_LEAF[leaf][0]}, built by {_LEAF[leaf][1]}) differs from BIP341" + (": it is the Merkle path of a different leaf of the tree" if got_cb in others else ""))
+                continue
+            exp_cb = got_cb
         if got_cb != exp_cb:
             res.violation(f"C12/{engine}/control-block", vc, got_cb, exp_cb, f"control block of leaf {leaf} differs from BIP341")
             continue
@@ -188,13 +332,31 @@ def check_tree(res, case, c, toy, engine):
         if isinstance(back, Rejected) or attempt(back.serialize) != exp_cb:
             res.violation(f"C12/{engine}/control-block-roundtrip", vc, repr(back), exp_cb, "control block does not parse back identically")
             continue
-        script = Script([bytes([sid(leaf) + 1]) * 32, 0xAC])
-        assert script.raw_serialize() == leaf_script_bytes(leaf)
+        if table:
+            script = attempt(parse_script, leaf_script_bytes(leaf))
+            if isinstance(script, Rejected):
+                if _LEAF[leaf][0] in LENIENT:
+                    res.skip("Script.parse refuses a short-read / oversized push spelling: spend side not asserted")
+                else:
+                    res.violation(f"C12/{engine}/leaf-script-reparse", vc, repr(script), "a Script", "the committed leaf script cannot be parsed back on the spending side")
+                continue
+        else:
+            script = Script([bytes([sid(leaf) + 1]) * 32, 0xAC])
+            assert script.raw_serialize() == leaf_script_bytes(leaf)
         ek = attempt(back.external_pubkey, script)
         if pt(ek) != Q or back.parity != par or back.tapleaf_version != vers[leaf]:
             res.violation(f"C12/{engine}/control-block-recompute", vc, (pt(ek), back.parity), (Q, par), "parsed control block does not recompute the output key and parity")
             continue
-        res.ok("control block==ref & recomputes", nontrivial=("cb", repr(shape), d, leaf))
+        res.ok("control block==ref & recomputes", nontrivial=("cb", repr(shape), d, leaf, tuple(vers), repr(case.get("leaves"))))
+    # single-leaf tree: the leaf argument may be omitted
+    if isinstance(shape, int):
+        cb0 = attempt(root_obj.control_block, internal)
+        got0 = None if isinstance(cb0, Rejected) or cb0 is None else attempt(cb0.serialize)
+        exp0 = bytes([vers[shape] | par]) + ec.b32(P[0])
+        if got0 != exp0:
+            res.violation(f"C12/{engine}/control-block-default-leaf", vc, got0, exp0, "TapLeaf.control_block(internal_pubkey) without a leaf argument differs from BIP341")
+        else:
+            res.ok("single leaf, leaf argument omitted==ref")
     # the SAME tree object used with other internal keys afterwards (state kept on the tree between calls)
     for d2 in case.get("also_keys", []):
         d2 = int(d2)
@@ -212,6 +374,71 @@ def check_tree(res, case, c, toy, engine):
                 res.violation(f"C12/{engine}/control-block-on-reused-tree", vc, got_cb, exp_cb, f"control block of leaf {leaf} for a second internal key on the same tree object differs from BIP341 (parity {par} then {par2})")
                 return
         res.ok(f"reused tree object, second key (parities {par}->{par2})", nontrivial=("reuse", repr(shape), d, d2))
+
+
+def check_paths(res, case, engine, root_obj=None, leafobjs=None):
+    """Tree-only part (no curve arithmetic): root, child-swap invariance, leaves(), Merkle path of every leaf in
+    two query orders, against the reference."""
+    shape, vers = case["shape"], case["vers"]
+    set_leaf_table(case)
+    vc = {"engine": engine, "case": case}
+    supplied = root_obj is not None  # a tree built by the caller (combine / shared subtree): queried as is
+    if root_obj is None:
+        built = attempt(build_lib, shape, vers)
+        if isinstance(built, Rejected):
+            if any(_LEAF[i][0] in LENIENT and _LEAF[i][1] == "parse" for i in _LEAF):
+                res.skip("Script.parse refuses a short-read / oversized push spelling: no such leaf can be built")
+            else:
+                res.violation(f"C12/{engine}/leaf-construction", vc, repr(built), "a TapLeaf/TapBranch", "a tree over valid tapscripts cannot be constructed")
+            return None
+        root_obj, leafobjs = built
+    exp_root = ref_hash(shape, vers)
+    got_root = attempt(root_obj.hash)
+    if got_root != exp_root:
+        res.violation(f"C12/{engine}/merkle-root", vc, got_root, exp_root, "tree hash differs from BIP341")
+        return None
+    res.ok("root==ref", nontrivial=("root", repr(shape), tuple(vers), repr(case.get("leaves"))), sample={"shape": shape, "leaf_versions": vers, "leaves": case.get("leaves"), "root": exp_root.hex()})
+    if case.get("swaps", True):
+        for sw in swapped_variants(shape):
+            o = attempt(lambda: build_lib(sw, vers)[0].hash())
+            if o != exp_root:
+                res.violation(f"C12/{engine}/sibling-order", vc, o, exp_root, "root depends on left/right order of siblings")
+                return None
+            res.ok("root invariant under child swap")
+    lv = leaves_of(shape)
+    got_leaves = attempt(lambda: [(lf.tapleaf_version, lf.hash()) for lf in root_obj.leaves()])
+    exp_leaves = [(vers[i], txref.tapleaf_hash(leaf_script_bytes(i), vers[i])) for i in lv]
+    if got_leaves != exp_leaves:
+        res.violation(f"C12/{engine}/leaves", vc, got_leaves, exp_leaves, "leaves() is not the left-to-right list of the tree's leaves")
+        return None
+    rows = []
+    for order in (lv, lv[::-1]):
+        ro, lo = (root_obj, leafobjs) if supplied else build_lib(shape, vers)
+        row = {}
+        for leaf in order:
+            ph = attempt(ro.path_hashes, lo[leaf])
+            row[leaf] = None if isinstance(ph, Rejected) or ph is None else list(ph)
+        rows.append(row)
+    if rows[0] != rows[1]:
+        res.violation(f"C12/{engine}/query-order", vc, str(rows[0])[:200], str(rows[1])[:200], "Merkle paths depend on the order of queries")
+        return None
+    for leaf in lv:
+        tw = twins(shape, leaf, vers)
+        cands = [ref_path(shape, j, vers) for j in tw]
+        got = rows[0][leaf]
+        if got not in cands:
+            others = [ref_path(shape, j, vers) for j in lv if j not in tw]
+            cls = "path-of-another-leaf" if got in others else "path"
+            what = f"Merkle path of leaf {leaf}" + (f" ({_LEAF[leaf][0]}, built by {_LEAF[leaf][1]})" if leaf in _LEAF else "") + " differs from BIP341"
+            res.violation(f"C12/{engine}/{cls}", vc, got, cands[0], what + (": it is the path of a different leaf of the tree" if got in others else ""))
+            continue
+        # folding the path from the leaf hash gives the root (what a control block must satisfy)
+        k = txref.tapleaf_hash(leaf_script_bytes(leaf), vers[leaf])
+        for e in got:
+            k = ec.tagged("TapBranch", k + e if k < e else e + k)
+        assert k == exp_root
+        res.ok("path==ref", nontrivial=("path", repr(shape), tuple(vers), repr(case.get("leaves")), leaf))
+    return exp_root
 
 
 def verifier_accepts(cb_bytes, script_items, Q, par, ver):
@@ -259,14 +486,26 @@ def real_keys(seed):
 
 
 def gen_real_tree(tier, seed):
-    kmax = 5 if tier == "quick" else 7
+    kmax = 5 if tier == "quick" else 8
     keys = real_keys(seed)
     cases = []
+    # boundary secrets and the ways a caller may hold the internal key (1- and 2-leaf trees)
+    vias = ["sec", "xonly", "priv", "sec-uncompressed"]
+    for si, sh in enumerate([0, [0, 1]]):
+        k = len(leaves_of(sh))
+        for di, d in enumerate([1, 2, N - 1, N - 2]):
+            cases.append({"shape": sh, "d": str(d), "vers": [0xC0] * k, "key_via": vias[(si + di) % 4]})
+        for ki, d in enumerate(keys):
+            for via in vias:
+                if tier == "thorough" or (si == 1 and (vias.index(via) + ki) % 2 == 0):
+                    cases.append({"shape": sh, "d": str(d), "vers": [0xC0] * k, "key_via": via})
     for k in range(1, kmax + 1):
         for si, sh in enumerate(shapes(k)):
             for ki, d in enumerate(keys):
                 if tier == "quick" and k == 5 and (si + ki) % 2:
                     continue  # each 5-leaf shape with one of the two parities
+                if k == 8 and (si + ki) % 2:
+                    continue  # each 8-leaf shape with one of the two parities (thorough only)
                 vers = [0xC0] * k
                 cases.append({"shape": sh, "d": str(d), "vers": vers})
             if k <= 3:
@@ -278,7 +517,7 @@ def gen_real_tree(tier, seed):
                 cases.append({"shape": sh, "d": str(keys[si % 2]), "vers": vers, "scripts": [0] + list(range(1, k - 1)) + [0]})
     # reuse of one tree object with further internal keys (walked until both output-key parities occurred)
     for c_ in cases:
-        if len(leaves_of(c_["shape"])) <= 3:
+        if len(leaves_of(c_["shape"])) <= (3 if tier == "quick" else 4) and "key_via" not in c_:
             c_["also_keys"] = [str(filler_int(seed, "c12also", j, 1, N - 1)) for j in range(3)]
     return cases
 
@@ -311,6 +550,7 @@ def run_real_tamper(case):
     res = Res()
     c = ec.SECP
     sh, d, leaf = case["shape"], int(case["d"]), case["leaf"]
+    set_leaf_table({})
     vers = [0xC0] * len(leaves_of(sh))
     root = ref_hash(sh, vers)
     P = c.mulg(d)
@@ -360,6 +600,253 @@ def run_real_tamper(case):
             res.violation(f"C12/real-tamper/{case['what']}-valid-rejected", vc, got, exp, "reference accepts the altered data but the library does not")
         else:
             res.ok("tamper rejected" if not exp else "tamper benign(ref accepts)", nontrivial=(case["what"], repr(sh), case["pos"], how))
+    return res
+
+
+# ---------------------------------------------------------------- script alphabet engine
+def gen_real_scripts(tier, seed):
+    keys = real_keys(seed)
+    items = alphabet_items()
+    cases = []
+    # every alphabet member as a single-leaf tree: full check (quick: one construction per byte string, the other tree-only)
+    for i, it in enumerate(items):
+        full = tier == "thorough" or it[1] == "cmds" or script_alphabet()[it[0]][0] is None
+        cases.append({"mode": "full" if full else "paths", "shape": 0, "vers": [0xC0], "d": str(keys[i % 2]), "leaves": [list(it)]})
+    # ordered pairs: full check over the colliding sub-alphabet (thorough: the whole alphabet), tree-only check over the whole alphabet
+    full_pairs = COLLIDING if tier == "quick" else items
+    n = 0
+    for a in items:
+        for b in items:
+            full = a in full_pairs and b in full_pairs
+            n += 1
+            cases.append({"mode": "full" if full else "paths", "shape": [0, 1], "vers": [0xC0, 0xC0], "d": str(keys[n % 2]), "leaves": [list(a), list(b)]})
+    # ordered triples of the colliding sub-alphabet on both 3-leaf shapes
+    for sh in shapes(3):
+        for a in COLLIDING:
+            for b in COLLIDING:
+                for c_ in COLLIDING:
+                    n += 1
+                    cases.append({"mode": "full" if tier == "thorough" else "paths", "shape": sh, "vers": [0xC0] * 3, "d": str(keys[n % 2]), "leaves": [list(a), list(b), list(c_)], "swaps": False})
+    # spread the expensive (curve arithmetic) cases evenly over the list so that worker chunks are balanced
+    heavy = [c_ for c_ in cases if c_["mode"] == "full"]
+    light = [c_ for c_ in cases if c_["mode"] != "full"]
+    if heavy and light:
+        step = max(1, len(light) // len(heavy))
+        out = []
+        for i, h in enumerate(heavy):
+            out.append(h)
+            out += light[i * step : (i + 1) * step]
+        out += light[len(heavy) * step :]
+        assert len(out) == len(cases)
+        cases = out
+    return cases
+
+
+def run_real_scripts(case):
+    res = Res()
+    if case["mode"] == "full":
+        check_tree(res, case, ec.SECP, None, "real-scripts")
+    else:
+        check_paths(res, case, "real-scripts")
+    return res
+
+
+# ---------------------------------------------------------------- large shapes, combine, shared subtrees (tree-only)
+def balanced(ix):
+    if len(ix) == 1:
+        return ix[0]
+    h = len(ix) // 2
+    return [balanced(ix[:h]), balanced(ix[h:])]
+
+
+def gen_real_paths(tier, seed):
+    cases = []
+    for k in (6, 7, 8):
+        for sh in shapes(k):
+            cases.append({"what": "shape", "shape": sh, "vers": [0xC2 if i % 3 == 2 else 0xC0 for i in range(k)], "swaps": True})
+    for k in range(1, 9):
+        cases.append({"what": "combine", "n": k, "shape": balanced(list(range(k))), "vers": [0xC0] * k})
+    # one TapBranch object used as a subtree of two trees (leaves() memo of the subtree warmed by the first tree)
+    for sub in shapes(2) + shapes(3):
+        k = len(leaves_of(sub))
+        for side in (0, 1):
+            cases.append({"what": "shared", "sub": sub, "side": side, "shape": None, "vers": [0xC0] * (k + 2)})
+    return cases
+
+
+def run_real_paths(case):
+    from buidl.taproot import TapBranch, TapLeaf
+
+    res = Res()
+    eng = "real-paths"
+    what = case["what"]
+    if what == "shape":
+        check_paths(res, case, eng)
+        return res
+    set_leaf_table(case)
+    vc = {"engine": eng, "case": case}
+    if what == "combine":
+        n = case["n"]
+        leafobjs = {i: TapLeaf(lib_script(i), 0xC0) for i in range(n)}
+        tree = attempt(TapBranch.combine, [leafobjs[i] for i in range(n)])
+        if isinstance(tree, Rejected) or tree is None:
+            res.violation(f"C12/{eng}/combine", vc, repr(tree), "a tree", "TapBranch.combine does not build a tree")
+            return res
+        check_paths(res, case, eng, tree, leafobjs)
+        return res
+    # shared: sub has leaves 0..k-1; tree A = [sub, k] or [k, sub]; tree B = [k+1, sub] or [sub, k+1]
+    sub, side = case["sub"], case["side"]
+    k = len(leaves_of(sub))
+    sub_obj, leafobjs = build_lib(sub, case["vers"])
+    for extra, sd in ((k, side), (k + 1, 1 - side)):
+        lf = TapLeaf(lib_script(extra), 0xC0)
+        objs = dict(leafobjs)
+        objs[extra] = lf
+        tree = TapBranch(sub_obj, lf) if sd == 0 else TapBranch(lf, sub_obj)
+        shape = [sub, extra] if sd == 0 else [extra, sub]
+        c2 = dict(case, shape=shape, swaps=False)
+        attempt(tree.leaves)
+        # check_paths with the supplied objects (no fresh tree: the shared object is the point)
+        check_paths(res, c2, eng, tree, objs)
+    return res
+
+
+# ---------------------------------------------------------------- leaf versions
+V_SUBSET = [0x00, 0x02, 0x7E, 0x80, 0xC2, 0xFE]
+
+
+def key_with_qpar(seed, label, root, want):
+    """first secret of a deterministic stream whose output key for this root has the wanted parity"""
+    j = 0
+    while True:
+        d = filler_int(seed, "c12q" + label, j, 1, N - 1)
+        out = ref_output(ec.SECP, ec.SECP.mulg(d)[0], root, None)
+        if out is not None and out[1] == want:
+            return d
+        j += 1
+
+
+def gen_real_versions(tier, seed):
+    cases = []
+    for v in range(0, 256, 2):
+        for pos, (sh, vers) in enumerate((((0, [v])), ([0, 1], [v, 0xC0]), ([0, 1], [0xC0, v]))):
+            cases.append({"mode": "hdr", "shape": sh, "vers": vers, "v": v, "pos": pos})
+    vias = ["xy", "sec", "xonly", "priv"]
+    full = V_SUBSET if tier == "quick" else list(range(0, 256, 2))
+    set_leaf_table({})
+    for i, v in enumerate(full):
+        for sh, vers in ((0, [v]), ([0, 1], [v, full[(i + 1) % len(full)]])):
+            root = ref_hash(sh, vers)
+            for want in (0, 1):
+                d = key_with_qpar(seed, f"{v}/{len(vers)}", root, want)
+                cases.append({"mode": "full", "shape": sh, "vers": vers, "d": str(d), "key_via": vias[(i + want + len(vers)) % 4], "want_qpar": want})
+    return cases
+
+
+def run_real_versions(case):
+    from buidl.taproot import ControlBlock
+
+    res = Res()
+    eng = "real-versions"
+    if case["mode"] == "full":
+        check_tree(res, case, ec.SECP, None, eng)
+        want = f"Qodd={case['want_qpar']})"
+        if not res.n_violations and not any(o.endswith(want) for o in res.outcomes):
+            raise AssertionError("generator promised the other output-key parity")
+        return res
+    exp_root = check_paths(res, case, eng)
+    if exp_root is None:
+        return res
+    v, shape, vers = case["v"], case["shape"], case["vers"]
+    vc = {"engine": eng, "case": case}
+    leaf = 0 if case["pos"] < 2 else 1
+    gx = ec.SECP.g[0]
+    for par in (0, 1):
+        b = bytes([v | par]) + ec.b32(gx) + b"".join(ref_path(shape, leaf, vers))
+        back = attempt(ControlBlock.parse, b)
+        good = (not isinstance(back, Rejected)) and back is not None and back.tapleaf_version == v and back.parity == par
+        good = good and attempt(back.serialize) == b and attempt(back.merkle_root, parse_script(leaf_script_bytes(leaf))) == exp_root
+        if not good:
+            res.violation(f"C12/{eng}/header-roundtrip", vc, repr(back) if isinstance(back, Rejected) else (getattr(back, "tapleaf_version", None), getattr(back, "parity", None)), (v, par), f"control block with header byte {v | par:#04x} does not parse to (version, parity), serialise back and recompute the root")
+        else:
+            res.ok("header byte round trip & merkle_root==ref", nontrivial=("hdr", v, par, case["pos"]))
+    return res
+
+
+# ---------------------------------------------------------------- ControlBlock.parse boundary inputs
+LEAF0_ITEMS = [b"\x01" * 32, 0xAC]
+
+
+def ref_commit(px, sibs):
+    """reference commitment of leaf 0 (version 0xc0) under the sibling list; any depth"""
+    k = txref.tapleaf_hash(b"\x20" + b"\x01" * 32 + b"\xac", 0xC0)
+    for e in sibs:
+        k = ec.tagged("TapBranch", k + e if k < e else e + k)
+    return ref_output(ec.SECP, px, k, None)
+
+
+KEY_FIELDS = {"zero": 0, "p-1": ec.SECP.p - 1, "p": ec.SECP.p, "p+1": ec.SECP.p + 1, "n": N, "2^256-1": 2**256 - 1, "five(not on curve)": 5}
+
+
+def gen_real_cb_parse(tier, seed):
+    keys = real_keys(seed)
+    cases = []
+    for ki in (0, 1):
+        for L in range(0, 201):
+            cases.append({"what": "len", "d": str(keys[ki]), "L": L, "seed": seed})
+    for i, m in enumerate((0, 1, 127, 128, 129, 130)):
+        for delta in (-1, 0, 1):
+            cases.append({"what": "depth", "d": str(keys[i % 2]), "m": m, "delta": delta, "seed": seed})
+    for x0 in (1, 2, 3):
+        for alt in ("honest", "plus-p"):
+            cases.append({"what": "key", "x0": x0, "alt": alt, "seed": seed})
+    for ki in (0, 1):
+        for name in KEY_FIELDS:
+            cases.append({"what": "key", "d": str(keys[ki]), "alt": name, "seed": seed})
+    return cases
+
+
+def run_real_cb_parse(case):
+    res = Res()
+    c = ec.SECP
+    eng = "real-cb-parse"
+    set_leaf_table({})
+    vc = {"engine": eng, "case": case}
+    what, seed = case["what"], case["seed"]
+    sb = leaf_script_bytes(0)
+    sib = lambda j: filler(seed, "c12sib", j, 32)
+    if what == "len":
+        px = c.mulg(int(case["d"]))[0]
+        sibs = [sib(j) for j in range(3)]
+        Q, par, _ = ref_commit(px, sibs)
+        cb = bytes([0xC0 | par]) + ec.b32(px) + b"".join(sibs)
+        data = (cb + filler(seed, "c12pad", 0, 72))[: case["L"]]
+        assert ref_verifier_accepts(c, cb, sb, Q, None)
+    elif what == "depth":
+        px = c.mulg(int(case["d"]))[0]
+        sibs = [sib(j) for j in range(case["m"])]
+        Q, par, _ = ref_commit(px, sibs)
+        cb = bytes([0xC0 | par]) + ec.b32(px) + b"".join(sibs)
+        data = {-1: cb[:-1], 0: cb, 1: cb + b"\x00"}[case["delta"]]
+    else:
+        if "x0" in case:
+            px = case["x0"]  # tiny x coordinates on the curve: x + p still fits in 32 bytes
+            assert c.lift_x(px) is not None and px + c.p < 2**256
+            field = px if case["alt"] == "honest" else px + c.p
+        else:
+            px = c.mulg(int(case["d"]))[0]
+            field = KEY_FIELDS[case["alt"]]
+        sibs = [sib(0)]
+        Q, par, _ = ref_commit(px, sibs)
+        data = bytes([0xC0 | par]) + ec.b32(field) + b"".join(sibs)
+    exp = ref_verifier_accepts(c, data, sb, Q, None)
+    got = verifier_accepts(data, LEAF0_ITEMS, Q, par, 0xC0)
+    if got and not exp:
+        res.violation(f"C12/{eng}/{what}-accepted", vc, got, exp, "a control block the BIP341 reference rejects (length / depth bound / internal key not a valid x coordinate below p) is accepted as committing to the output key")
+    elif exp and not got:
+        res.violation(f"C12/{eng}/{what}-valid-rejected", vc, got, exp, "a valid control block is rejected")
+    else:
+        res.ok("accepted==ref(valid)" if exp else "rejected==ref", nontrivial=(what, case.get("L"), case.get("m"), case.get("delta"), case.get("alt"), case.get("x0"), case.get("d")))
     return res
 
 
@@ -427,8 +914,14 @@ def run_toy_tree(case):
 def engines(tier, seed):
     toys = [(43, 31)] if tier == "quick" else [(43, 31), (79, 67), (67, 79)]
     es = [
-        Engine("real-tree", gen_real_tree, run_real_tree, kind="E1", rule="secp256k1: every binary tree shape with 1..5 leaves (thorough ..7) x internal keys of both parities (+ mixed leaf versions for <= 3 leaves): root, child-swap invariance at every node, output key, private tweak, every leaf's control block (bytes, parse round trip, recomputation of key and parity), query-order independence"),
+        Engine("real-tree", gen_real_tree, run_real_tree, kind="E1", rule="secp256k1: every binary tree shape with 1..5 leaves (thorough ..8; 5-leaf shapes in quick and 8-leaf shapes alternate between the two key parities) x internal keys of both parities (+ mixed leaf versions for <= 3 leaves; + secrets 1, 2, n-1, n-2 and internal keys built from SEC / x-only / private key on 1- and 2-leaf trees; single leaf also with the leaf argument omitted): root, child-swap invariance at every node, output key, private tweak, every leaf's control block (bytes, parse round trip, recomputation of key and parity), query-order independence"),
         Engine("real-tamper", gen_real_tamper, run_real_tamper, kind="E1", rule="secp256k1: every byte of selected control blocks (depth 1 and 2 paths, both parities) and of a leaf script x {^01, ^80, +1}, plus truncations: accepted by the library's parse+recompute+compare iff the BIP341 reference accepts"),
+    ]
+    es += [
+        Engine("real-scripts", gen_real_scripts, run_real_scripts, kind="E1", rule="secp256k1, leaf-script alphabet of 22 byte strings (empty, OP_1, OP_0 as empty push and as opcode, pushes of 2/75/76/255/256/520 bytes, an oversized 521-byte push, CHECKSIGADD script, total lengths 252/253/254/65535/65536, and spellings with the SAME parsed commands but other bytes: PUSHDATA1/PUSHDATA2 of 32 bytes, a short-read push) x construction {Script(commands), Script.parse(bytes)} = 40 members: every member as a single leaf (full check as real-tree; quick: one construction per byte string full, the other tree-only), every ordered pair of members on the 2-leaf shape (root, leaves(), Merkle path of each leaf vs reference; full output-key/control-block/recompute check for pairs inside the 7-member colliding sub-alphabet, thorough: for all pairs), every ordered triple of the colliding sub-alphabet on both 3-leaf shapes (paths; thorough: full). Oracle: reference leaf hash/path on the committed bytes; where several positions commit to the same (version, bytes) the block of any of them is accepted"),
+        Engine("real-paths", gen_real_paths, run_real_paths, kind="E1", rule="tree-only (no curve arithmetic): every binary tree shape with 6, 7 and 8 leaves (42+132+429) with leaf versions c0/c2 mixed: root, leaves() order, Merkle path of every leaf in two query orders vs reference, child-swap invariance at every node; TapBranch.combine for 1..8 leaves vs the balanced reference shape; one TapBranch object shared as subtree by two trees (2- and 3-leaf subtrees, both sides)"),
+        Engine("real-versions", gen_real_versions, run_real_versions, kind="E1", rule="every even leaf version 0x00..0xfe x position {single leaf, left, right of a pair}: root and paths vs reference, control block header byte version|parity for both parity bits parses to (version, parity), serialises back and merkle_root() gives the reference root; full real-tree check for versions {00,02,7e,80,c2,fe} (thorough: all 128) x {1 leaf, 2 leaves} x output key parity {even, odd} (secret walked until the reference output key has that parity) x internal key built from coordinates / SEC / x-only / private key. Odd version numbers are not leaf versions: nothing asserted"),
+        Engine("real-cb-parse", gen_real_cb_parse, run_real_cb_parse, kind="E1", rule="secp256k1, reference-built commitments of one leaf: control block cut/padded to every length 0..200 (two internal keys); honest blocks of path depth 0,1,127,128,129,130 and the same +-1 byte (BIP341 bound 128); internal-key field replaced by x+p for the curve points x=1,2,3 and by 0, p-1, p, p+1, n, 2^256-1, 5: the library's parse+recompute+compare accepts iff the BIP341 reference does"),
     ]
     for toy in toys:
         es.append(Engine(f"toy-tree-{toy[0]}", gen_toy_tree(toy), run_toy_tree, toy=toy, kind="E3", rule=f"toy curve p={toy[0]}: every internal key x every shape with <= 3 leaves (thorough 4): same checks as real-tree, plus header/key/path bytes of a control block x all 255 alternative values compared differentially with the reference (collisions at 5 bits are expected and counted)"))
